@@ -354,9 +354,25 @@ def rule_r2(prog, res):
                             'None)')
             kw_ok = kw_ok or (order_ok and present == 'ok')
     # slots are sized by the declared in-message
-    sized = any(isinstance(n, ast.Assign) and unparse(n.targets[0]) ==
-                'ctx.in_object' and 'len(_type_info)' in unparse(n.value)
-                for n in walk_no_defs(f.node))
+    inits = [n for n in walk_no_defs(f.node) if isinstance(n, ast.Assign)
+             and unparse(n.targets[0]) == 'ctx.in_object' and (
+                 'len(_type_info)' in unparse(n.value) or (
+                     isinstance(n.value, ast.ListComp) and
+                     '_type_info' in unparse(n.value.generators[0].iter)))]
+    sized = bool(inits)
+    for n in inits:
+        dflt = isinstance(n.value, ast.ListComp) and \
+            'Attributes.default' in unparse(n.value.elt)
+        res.ob('R2', '%s:%d' % (m.relpath, n.lineno), 'omitted arguments '
+               'start as %s' % unparse(n.value)[:50],
+               'ok' if dflt else 'VIOLATED')
+        if not dflt:
+            res.finding('R2', '_FunctionCall.__call__|defaults',
+                        '%s:%d' % (m.relpath, n.lineno), 'the argument slots '
+                        'start as None instead of the declared defaults: '
+                        'search(query) with limit=Integer(default=10) calls '
+                        'the function with limit=None, every wire protocol '
+                        'with limit=10')
     res.ob('R2', f.where, 'in_object has one slot per declared argument',
            'ok' if sized else 'VIOLATED')
     if not sized:
@@ -364,14 +380,19 @@ def rule_r2(prog, res):
                     'ctx.in_object is not sized by the in-message type info')
     ti = [n for n in walk_no_defs(f.node) if isinstance(n, ast.Assign) and
           unparse(n.targets[0]) == '_type_info']
-    ok = any(unparse(n.value) == 'ctx.descriptor.in_message._type_info'
-             for n in ti)
+    srcs = [unparse(n.value) for n in ti]
+    ok = any(v in ('ctx.descriptor.in_message._type_info',
+                   'in_message._type_info') for v in srcs) and any(
+        'get_flat_type_info' in v for v in srcs)
     res.ob('R2', f.where, '_type_info is the in-message field table',
            'ok' if ok else 'VIOLATED')
     if not ok:
         res.finding('R2', '_FunctionCall.__call__|type-info', f.where,
-                    'arguments are not packed against '
-                    'ctx.descriptor.in_message._type_info')
+                    'arguments are not packed against the in-message field '
+                    'table including the fields of its parents '
+                    '(get_flat_type_info): %s - for a bare method whose '
+                    'argument class has a parent the values land in the '
+                    'wrong fields' % srcs)
     # bare style packs through get_serialization_instance
     bare = [n for n in walk_no_defs(f.node) if isinstance(n, ast.If) and
             'BODY_STYLE_BARE' in unparse(n.test)]
@@ -761,9 +782,27 @@ def rule_r8(prog, res):
                             allowed=[('ctx.descriptor.body_style == '
                                       'BODY_STYLE_BARE', True),
                                      ('ctx.descriptor.body_style is '
-                                      'BODY_STYLE_BARE', True)],
+                                      'BODY_STYLE_BARE', True),
+                                     ('issubclass(in_message, Array)', False),
+                                     ('issubclass(ctx.descriptor.in_message, '
+                                      'Array)', False)],
                             key='_FunctionCall.__call__|bare-instance')
     res.floor('R8', 'bare argument object constructions', k, 1)
+    # ... and a bare Array argument is the sequence itself
+    arr = [a for a in walk_no_defs(g.node) if isinstance(a, ast.Assign) and
+           any(unparse(t) == 'ctx.in_object' for t in a.targets) and
+           unparse(a.value) == 'ctx.in_object[0]' and any(
+               'Array' in t and pol
+               for t, pol in guardspec.atoms_at(a, g.node))]
+    res.ob('R8', g.where, 'a bare Array argument is %s' % (
+        'unwrapped to the sequence' if arr else 'packed like an object'),
+        'ok' if arr else 'VIOLATED')
+    if not arr:
+        res.finding('R8', '_FunctionCall.__call__|bare-array', g.where,
+                    'a bare method whose argument is an Array gets its slot '
+                    'list packed with get_serialization_instance: the '
+                    'function receives a wrapper object holding [[1, 2, 3]] '
+                    'where the wire delivers [1, 2, 3]')
     # readers: presence by identity
     h = prog.cls('spyne.protocol.dictdoc.hier:HierDictDocument')
     guardspec.presence_rule(res, 'R8', [h.methods['_from_dict_value'],
@@ -848,6 +887,19 @@ _A = 'spyne/application.py'
 _D = 'spyne/descriptor.py'
 
 MUTANTS = [
+    Mutant('null-slots-start-as-none', 'R2', 'fire', 'spyne/server/null.py',
+           in_func('_FunctionCall.__call__',
+                   "ctx.in_object = [v.Attributes.default for v in _type_info"
+                   ".values()]", "ctx.in_object = [None] * len(_type_info)"),
+           'defaults'),
+    Mutant('null-own-fields-only', 'R2', 'fire', 'spyne/server/null.py',
+           in_func('_FunctionCall.__call__',
+                   "_type_info = in_message.get_flat_type_info(in_message)",
+                   "_type_info = in_message._type_info"), 'type-info'),
+    Mutant('null-bare-array-packed', 'R8', 'fire', 'spyne/server/null.py',
+           in_func('_FunctionCall.__call__',
+                   "                if issubclass(in_message, Array):",
+                   "                if False:"), 'bare-array'),
     Mutant('nil-message-expanded-for-bare', 'R7', 'fire', 'spyne/application.py',
            in_func('Application.process_request',
                    r"(            if ctx\.descriptor\.body_style is "
@@ -978,9 +1030,8 @@ MUTANTS = [
                    "args[i - 1]"), 'positional'),
     Mutant('bare-not-packed', 'R2', 'fire', _N,
            in_func('_FunctionCall.__call__',
-                   r"            if ctx\.descriptor\.body_style == BODY_STYLE_"
-                   r"BARE:\n                ctx\.in_object = ctx\.descriptor\."
-                   r"in_message \\\n\s*\.get_serialization_instance\("
+                   r"                else:\n                    ctx\.in_object"
+                   r" = in_message \\\n\s*\.get_serialization_instance\("
                    r"ctx\.in_object\)\n", "", regex=True), 'bare-packing'),
     Mutant('fault-after-result', 'R3', 'fire', _N,
            in_func('_cb_sync',
